@@ -19,46 +19,12 @@
    neighbours outside every prefix of the universe) and the expected answers.  The Go harness runs
    the vectors through trie.NewTrieFromPrefixes/HasPrefix, cidrToBpfLpmKey + a real kernel LPM
    trie, and dip()/sip() rule programs. *)
-EXTENDS Integers, Sequences, FiniteSets, TLC, Json, Randomization, SequencesExt
+EXTENDS CidrOps, TLC, Json, Randomization, SequencesExt
 
 CONSTANTS MaxSet,        \* exhaustive: all subsets of the universe up to this size
           Mode,          \* "exhaustive" | "random"
           RandSets,      \* random mode: number of random sets
           RandSize       \* random mode: size of each random set (drawn from BigUniverse)
-
-Pow2(n) == 2^n
-V4Pad == <<0,0,0,0,0,0,0,0,0,0,255,255>>
-Mapped(fam, b) == IF fam = 4 THEN V4Pad \o b ELSE b
-L(p) == IF p.fam = 4 THEN p.len + 96 ELSE p.len
-Pfx(fam, b, len) == [fam |-> fam, b |-> b, len |-> len]
-Adr(fam, b) == [fam |-> fam, b |-> b]
-
-(* ---------------- reference semantics ---------------- *)
-SameBits(x, y, n) ==
-    /\ \A i \in 1..(n \div 8) : x[i] = y[i]
-    /\ (n % 8 # 0) => LET i == (n \div 8) + 1
-                          sh == Pow2(8 - (n % 8))
-                      IN (x[i] \div sh) = (y[i] \div sh)
-
-PfxContains(p, a) == SameBits(Mapped(p.fam, p.b), Mapped(a.fam, a.b), L(p))
-SetHas(S, a) == \E p \in S : PfxContains(p, a)
-
-(* ---------------- implementation layer: bit-string trie ---------------- *)
-BitAt(x, i) == (x[((i - 1) \div 8) + 1] \div Pow2(7 - ((i - 1) % 8))) % 2      \* i in 1..128
-Bits(x, n) == [i \in 1..n |-> BitAt(x, i)]
-Bin128(p) == Bits(Mapped(p.fam, p.b), L(p))           \* key string of a prefix: its first L(p) bits
-IsPrefixOf(k, w) == Len(k) <= Len(w) /\ \A i \in 1..Len(k) : k[i] = w[i]
-TrieHasRaw(S, a) == LET w == Bits(Mapped(a.fam, a.b), 128)
-                    IN \E p \in S : IsPrefixOf(Bin128(p), w)
-
-(* ---------------- implementation layer: kernel LPM keys ---------------- *)
-LpmKey(p) == [prefixlen |-> L(p), data |-> Mapped(p.fam, p.b)]
-LpmKeys(S) == {LpmKey(p) : p \in S}
-\* BPF_MAP_TYPE_LPM_TRIE: a lookup key (prefixlen 128, data) matches the entry with the longest
-\* prefixlen whose first prefixlen bits equal the key's; "hit" iff such an entry exists.
-LpmCandidates(K, a) == {k \in K : SameBits(k.data, Mapped(a.fam, a.b), k.prefixlen)}
-LpmLookup(K, a) == LpmCandidates(K, a) # {}
-LpmBest(K, a) == CHOOSE k \in LpmCandidates(K, a) : \A j \in LpmCandidates(K, a) : j.prefixlen <= k.prefixlen
 
 (* ---------------- storage sharing ---------------- *)
 \* Two rule sets may share one stored trie only when they are identical as sets of (family, bytes, len).
